@@ -425,7 +425,7 @@ Definition rp_exact (g : replay) : bool := negb (rp_under g) && match rp_rest g 
       replay generator, compares every output with the implementation's and, at every re-seed and at the
       end, the model's request log of the finished epoch with the implementation's. *)
 Definition epoch_ok (g : replay) (req : list Z) : bool := rp_exact g && list_eqb Z.eqb (rp_log g) req.
-Fixpoint script_ok {St} (m : machine replay St) (epochs reqs : list (list Z)) (i : inst replay St) (ep : nat)
+Fixpoint script_ok {St} (cmp : res -> res -> bool) (m : machine replay St) (epochs reqs : list (list Z)) (i : inst replay St) (ep : nat)
          (ops : list op) (exp : list res) : bool :=
   match ops with
   | [] => epoch_ok (i_gen i) (nth ep reqs []) && match exp with [] => true | _ => false end
@@ -433,12 +433,22 @@ Fixpoint script_ok {St} (m : machine replay St) (epochs reqs : list (list Z)) (i
     let '(i', e) := do_op replay (rp_seed epochs) m i o in
     match o, e with
     | Next, Some x => match exp with
-                      | y :: exp' => res_eqb x y && script_ok m epochs reqs i' ep r exp'
+                      | y :: exp' => cmp x y && script_ok cmp m epochs reqs i' ep r exp'
                       | [] => false
                       end
-    | Seed _, _ => epoch_ok (i_gen i) (nth ep reqs []) && script_ok m epochs reqs i' (S ep) r exp
-    | _, _ => script_ok m epochs reqs i' ep r exp
+    | Seed _, _ => epoch_ok (i_gen i) (nth ep reqs []) && script_ok cmp m epochs reqs i' (S ep) r exp
+    | _, _ => script_ok cmp m epochs reqs i' ep r exp
     end
   end.
 Definition check_script {St} (m : machine replay St) (epochs reqs : list (list Z)) (ops : list op) (exp : list res) : bool :=
-  script_ok m epochs reqs (fresh replay (rp_seed epochs) m 0) 0 ops exp.
+  script_ok res_eqb m epochs reqs (fresh replay (rp_seed epochs) m 0) 0 ops exp.
+
+(* float outputs: the implementation's float must lie within eps of the model's exact rational (eps bounds the
+   accumulated rounding error of the float operations, see docs/C11.md); everything else is compared exactly *)
+Definition res_close (eps : Q) (a b : res) : bool :=
+  match a, b with
+  | Out (OQ x), Out (OQ y) => Qle_bool (Qabs (x - y)) eps
+  | _, _ => res_eqb a b
+  end.
+Definition check_script_eps {St} (eps : Q) (m : machine replay St) (epochs reqs : list (list Z)) (ops : list op) (exp : list res) : bool :=
+  script_ok (res_close eps) m epochs reqs (fresh replay (rp_seed epochs) m 0) 0 ops exp.
